@@ -185,7 +185,7 @@ func validate(c *core.Ctx, lines [][]byte, tag string) (*valStats, error) {
 	var mu sync.Mutex
 	var wg sync.WaitGroup
 	var firstErr error
-	sem := make(chan struct{}, 8)
+	sem := make(chan struct{}, tlcPar())
 	for gi := range paths {
 		wg.Add(1)
 		go func(gi int) {
